@@ -116,6 +116,33 @@ func (e *Engine) doCall(st *State, in ssa.Instruction, c *ssa.CallCommon, k func
 				return
 			}
 		}
+		if b.Name() == "append" && len(args) == 2 && st.dry == nil {
+			// two paths: the append fits into the capacity (in place) or reallocates
+			var addLen Term
+			if isString(args[1].T) {
+				addLen = st.strLen(args[1].L[0])
+			} else {
+				addLen = args[1].L[2]
+			}
+			if n, ok := addLen.IntLit(); !ok || n.Sign() != 0 {
+				fits := Le(Add(args[0].L[2], addLen), args[0].L[3])
+				after := func(s *State, mode int) {
+					r := e.doAppend(s, in, args[0], args[1], mode)
+					if s.dead {
+						return
+					}
+					if s.fr.contract != nil && len(s.fr.contract.Hooks) > 0 {
+						e.runHooksAfter(s, in, bt, r)
+						if s.dead {
+							return
+						}
+					}
+					k(s, r)
+				}
+				e.fork(st, fits, func(s *State) { after(s, 1) }, func(s *State) { after(s, 2) })
+				return
+			}
+		}
 		r := e.builtin(st, in, b, args, c)
 		if st.dead {
 			return
@@ -431,6 +458,17 @@ func (e *Engine) havocLocation(st *State, env *SpecEnv, m Clause) (err error) {
 			st.setHeap(key, Store(h, v.L[0], st.ctx.freshConst("hv!elems", arrSort(l.Sort))))
 			st.tainted[key] = true
 		}
+		return nil
+	}
+	if strings.HasPrefix(txt, "closedflag(") {
+		// the closed/open state of one channel
+		inner, perr := parseSpecExpr(txt[11 : len(txt)-1])
+		if perr != nil {
+			return perr
+		}
+		v := env.eval(inner)
+		h := st.heapTerm(closedKey(v.T), SBool, false)
+		st.setHeap(closedKey(v.T), Store(h, v.L[0], st.ctx.freshConst("hv!closed", SBool)))
 		return nil
 	}
 	if strings.HasPrefix(txt, "objects(") {
@@ -783,7 +821,7 @@ func reachableKeys(t types.Type, seen map[string]bool, out map[string]bool, viaP
 			reachableKeys(u.Field(i).Type(), seen, out, viaPtr)
 		}
 	case *types.Chan:
-		out["CH#closed"] = true
+		out[closedKey(t)] = true
 	}
 }
 
@@ -1045,7 +1083,7 @@ func (e *Engine) builtin(st *State, in ssa.Instruction, b *ssa.Builtin, args []V
 		}
 		unsup("cap of %s", v.T)
 	case "append":
-		return e.doAppend(st, in, args[0], args[1])
+		return e.doAppend(st, in, args[0], args[1], 0)
 	case "copy":
 		dst, src := args[0], args[1]
 		var n Term
@@ -1067,9 +1105,9 @@ func (e *Engine) builtin(st *State, in ssa.Instruction, b *ssa.Builtin, args []V
 		return Val{}
 	case "close":
 		ch := args[0].L[0]
-		st.oblige(in, "close", And(Ne(ch, I(0)), Not(st.chanClosed(ch))), "close of nil or closed channel "+subjectOf(c.Args[0]))
-		h := st.heapTerm("CH#closed", SBool, false)
-		st.setHeap("CH#closed", Store(h, ch, TTrue))
+		st.oblige(in, "close", And(Ne(ch, I(0)), Not(st.chanClosed(args[0]))), "close of nil or closed channel "+subjectOf(c.Args[0]))
+		h := st.heapTerm(closedKey(args[0].T), SBool, false)
+		st.setHeap(closedKey(args[0].T), Store(h, ch, TTrue))
 		st.event("close:"+subjectOf(c.Args[0]), in.Pos(), ch)
 		return Val{}
 	case "panic":
@@ -1097,7 +1135,7 @@ func (e *Engine) builtin(st *State, in ssa.Instruction, b *ssa.Builtin, args []V
 	return Val{}
 }
 
-func (e *Engine) doAppend(st *State, in ssa.Instruction, s, t Val) Val {
+func (e *Engine) doAppend(st *State, in ssa.Instruction, s, t Val, mode int) Val {
 	sl := s.T.Underlying().(*types.Slice)
 	var addLen Term
 	single := false
@@ -1126,6 +1164,14 @@ func (e *Engine) doAppend(st *State, in ssa.Instruction, s, t Val) Val {
 	newLen := st.named(Add(s.L[2], addLen))
 	st.assume(Le(newLen, I(maxElemsOf(s.T)/4)))
 	inPlace := Le(newLen, s.L[3])
+	switch mode {
+	case 1:
+		st.assume(inPlace)
+		inPlace = TTrue
+	case 2:
+		st.assume(Not(inPlace))
+		inPlace = TFalse
+	}
 	fresh := st.newRef()
 	arr := Ite(inPlace, s.L[0], fresh)
 	arr = st.named(arr)
@@ -1141,9 +1187,11 @@ func (e *Engine) doAppend(st *State, in ssa.Instruction, s, t Val) Val {
 		// append(s) or append(s, empty...) returns s itself
 		return Val{T: s.T, L: s.L}
 	}
+	oldElemHeap := map[string]Term{}
 	for i, l := range leavesOf(sl.Elem()) {
 		key := elemKey(sl.Elem(), l.Path)
 		h := st.heapTerm(key, l.Sort, true)
+		oldElemHeap[key] = h
 		// contents: the old backing array (shifted if reallocated) plus the new elements
 		var contents Term
 		if single {
@@ -1160,6 +1208,19 @@ func (e *Engine) doAppend(st *State, in ssa.Instruction, s, t Val) Val {
 		st.setHeap(key, Store(h, arr, contents))
 	}
 	res := Val{T: s.T, L: []Term{arr, off, newLen, cp}}
+	if els := leavesOf(sl.Elem()); single && len(els) == 1 {
+		// stated directly, so that quantified invariants over the slice need not be pushed through
+		// the reallocation: the first len(s) elements are unchanged and the new one is at index len(s)
+		key := elemKey(sl.Elem(), els[0].Path)
+		hNew := st.heapTerm(key, els[0].Sort, true)
+		hOld, ok := oldElemHeap[key]
+		if ok {
+			q := Term{sym(st.ctx.freshName("q!app")), SInt}
+			body := Eq(Select(Select(hNew, arr), Add(off, q)), Select(Select(hOld, s.L[0]), Add(s.L[1], q)))
+			st.assume(Term{fmt.Sprintf("(forall ((%s Int)) %s)", q.S, Implies(And(Le(I(0), q), Lt(q, s.L[2])), body).S), SBool})
+			st.assume(Eq(Select(Select(hNew, arr), Add(off, s.L[2])), tv.L[0]))
+		}
+	}
 	if contentTracked {
 		st.assume(Eq(st.bytesOf(res), st.bcat(cS, cT)))
 		// append never changes the first len(s) elements of s
@@ -1203,7 +1264,7 @@ func (st *State) isLockChan(v ssa.Value) bool {
 
 func (e *Engine) doSend(st *State, in *ssa.Send, ch, x Val) {
 	subj := subjectOf(in.Chan)
-	st.oblige(in, "send", Not(st.chanClosed(ch.L[0])), "send on closed channel "+subj)
+	st.oblige(in, "send", Not(st.chanClosed(ch)), "send on closed channel "+subj)
 	if st.isLockChan(in.Chan) {
 		h := st.heapTerm("CH#held", SBool, false)
 		st.oblige(in, "lock", Not(Select(h, ch.L[0])), "acquire of lock channel "+subj+" already held by this thread (self-deadlock)")
@@ -1245,6 +1306,31 @@ func (e *Engine) doRecv(st *State, in *ssa.UnOp, ch Val) {
 		st.fr.regs[in] = Val{T: in.Type(), Tup: []Val{v, boolVal(ok)}}
 	} else {
 		st.set(in, v)
+	}
+}
+
+// recvHooks: `at recv <chan>: assume P` — an ASSUMED fact about the values sent on a
+// channel by other threads (v names the received value, ok the receive's second result).
+func (st *State) recvHooks(in ssa.Instruction, subj string, v Val, ok Term) {
+	c := st.fr.contract
+	if c == nil || in.Parent() != st.fr.fn {
+		return
+	}
+	for _, h := range c.Hooks["recv:"+subj] {
+		if h.Kind != "assume" {
+			continue
+		}
+		env := st.specEnv("hook")
+		env.scope = in.Block()
+		env.vars["v"] = v
+		env.vars["ok"] = boolVal(ok)
+		tm, err := st.evalClause(env, h.Cl)
+		if err != nil {
+			st.bindFail(st.ctx.oblName(in, "select")+"/recv-assume", err)
+			continue
+		}
+		st.ctx.note("ASSUMED about values received from %s in %s: %s", subj, funcKey(st.fr.fn), h.Cl.Text)
+		st.assume(Implies(ok, tm))
 	}
 }
 
@@ -1291,12 +1377,18 @@ func (e *Engine) doSelect(st *State, in *ssa.Select, k func(*State)) {
 		}
 	}
 	branch := func(s *State, idx int) {
-		tup := []Val{scalar(types.Typ[types.Int], I(int64(idx))), boolVal(s.ctx.freshConst("sel!ok", SBool))}
+		okT := s.ctx.freshConst("sel!ok", SBool)
+		tup := []Val{scalar(types.Typ[types.Int], I(int64(idx))), boolVal(okT)}
 		for j, ss := range in.States {
 			if ss.Dir == types.RecvOnly {
 				et := ss.Chan.Type().Underlying().(*types.Chan).Elem()
 				if j == idx {
-					tup = append(tup, s.freshVal(et, s.ctx.freshName("sel!recv")))
+					rv := s.freshVal(et, s.ctx.freshName("sel!recv"))
+					tup = append(tup, rv)
+					// a receive reports ok == false only on a closed channel
+					chv := s.get(ss.Chan)
+					s.assume(Implies(Not(okT), s.chanClosed(chv)))
+					s.recvHooks(in, subjectOf(ss.Chan), rv, okT)
 				} else {
 					tup = append(tup, zeroVal(et))
 				}
@@ -1321,12 +1413,23 @@ func (e *Engine) doSelect(st *State, in *ssa.Select, k func(*State)) {
 				}
 				s.touchLock("chan:"+subj, nil, ch.L[0])
 			} else if ss.Dir == types.SendOnly {
-				s.obligeNamed(s.ctx.oblName(in, "select")+fmt.Sprintf("/send%d", idx), "send", s.posOf(in), Not(s.chanClosed(ch.L[0])), "send on closed channel "+subj)
+				s.obligeNamed(s.ctx.oblName(in, "select")+fmt.Sprintf("/send%d", idx), "send", s.posOf(in), Not(s.chanClosed(ch)), "send on closed channel "+subj)
 				x := s.get(ss.Send)
 				a := append([]Term{ch.L[0]}, x.L...)
 				s.event("send:"+subj, in.Pos(), a...)
 			} else {
-				s.event("recv:"+subj, in.Pos(), ch.L[0])
+				// the received value is recorded after the channel reference
+				ra := []Term{ch.L[0]}
+				k := 2
+				for j2, ss2 := range in.States {
+					if ss2.Dir == types.RecvOnly {
+						if j2 == idx && k < len(tup) {
+							ra = append(ra, tup[k].L...)
+						}
+						k++
+					}
+				}
+				s.event("recv:"+subj, in.Pos(), ra...)
 			}
 		}
 		s.fr.regs[in] = Val{T: in.Type(), Tup: tup}
@@ -1415,6 +1518,8 @@ func (st *State) frameLocs() []frameLoc {
 				}
 				v := env.eval(ex)
 				st.ctx.frame = append(st.ctx.frame, frameLoc{kind: "map", root: typeKey(v.T.Underlying()), ref: v.L[0]})
+			case strings.HasPrefix(txt, "closedflag("):
+				// channel state is ghost: nothing to check on heap writes
 			case strings.HasPrefix(txt, "objects("):
 				// any object of the named struct type of this package
 				st.ctx.frame = append(st.ctx.frame, frameLoc{kind: "type", root: strings.TrimSpace(txt[8 : len(txt)-1])})
